@@ -31,6 +31,11 @@ type c18Out struct {
 type c18Case struct {
 	Ins  []c18In  `json:"ins"`
 	Outs []c18Out `json:"outs"`
+	// the same *wire.TxIn / *wire.TxOut object listed again (positions into Ins / Outs)
+	DupIn  []int `json:"dup_in,omitempty"`
+	DupOut []int `json:"dup_out,omitempty"`
+	// this many further inputs and outputs, derived from their number (for counts past 2^16)
+	Big int `json:"big,omitempty"`
 }
 
 func (c c18Case) build() *wire.MsgTx {
@@ -51,6 +56,27 @@ func (c c18Case) build() *wire.MsgTx {
 			td.BitField = wire.HAS_AMOUNT
 		}
 		tx.AddTxOut(wire.NewTxOut(out.Value, append([]byte{}, out.Script...), td))
+	}
+	for i := 0; i < c.Big; i++ {
+		var h chainhash.Hash
+		x := uint32(i)*2654435761 + 12345
+		for j := 0; j < 32; j += 4 {
+			x = x*1664525 + 1013904223
+			h[j], h[j+1], h[j+2], h[j+3] = byte(x>>24), byte(x>>16), byte(x>>8), byte(x)
+		}
+		h[31], h[30] = byte(i%3), 0 // few distinct leading (most significant) bytes: the order is decided deep inside
+		tx.AddTxIn(wire.NewTxIn(wire.NewOutPoint(&h, x%5), nil))
+		tx.AddTxOut(wire.NewTxOut(int64(x%1000), []byte{byte(x >> 8), byte(x >> 16)}, wire.TokenData{}))
+	}
+	for _, d := range c.DupIn {
+		if len(tx.TxIn) > 0 {
+			tx.TxIn = append(tx.TxIn, tx.TxIn[((d%len(tx.TxIn))+len(tx.TxIn))%len(tx.TxIn)])
+		}
+	}
+	for _, d := range c.DupOut {
+		if len(tx.TxOut) > 0 {
+			tx.TxOut = append(tx.TxOut, tx.TxOut[((d%len(tx.TxOut))+len(tx.TxOut))%len(tx.TxOut)])
+		}
 	}
 	return tx
 }
@@ -352,6 +378,12 @@ func genC18(t *rapid.T) c18Case {
 		}
 		c.Outs = append(c.Outs, c18Out{Value: v, Script: sc, Token: rapid.IntRange(0, 4).Draw(t, "tok") == 0})
 	}
+	if rapid.IntRange(0, 5).Draw(t, "dups") == 0 { // the same object listed twice
+		for k := rapid.IntRange(1, 3).Draw(t, "ndup"); k > 0; k-- {
+			c.DupIn = append(c.DupIn, rapid.IntRange(0, 300).Draw(t, "di"))
+			c.DupOut = append(c.DupOut, rapid.IntRange(0, 300).Draw(t, "do"))
+		}
+	}
 	if rapid.IntRange(0, 3).Draw(t, "presort") == 0 { // already sorted inputs
 		tx := c.build()
 		idx := seqInts(len(c.Ins))
@@ -472,6 +504,8 @@ func TestC18(t *testing.T) {
 			"tie or inversion between neighbours.",
 			"which order elements with equal keys end up in is not prescribed (sort.Sort is not stable); only that Sort and InPlaceSort arrange the same transaction identically")
 		exhaustiveC18(ev)
+		// every run also sorts one transaction with more than 2^16 inputs and outputs (per shard)
+		kC18.One(ev, c18Case{Big: []int{65537, 65536, 70001, 65600}[shard%4], Ins: []c18In{{Hash: HexBytes{1}, Index: 3}}, Outs: []c18Out{{Value: 5}}})
 		kC18.Run(t, ev, perShard(pick(6000, 3000000)))
 		runConcurrent(kC18, t, ev, perShard(pick(150, 15000)), 8)
 		ev.requireClasses("C18:already-sorted", "C18:unsorted")
